@@ -388,6 +388,47 @@ pub fn exec_case_subprocess(case: &Case, ignore_known: bool, timeout_s: u64) -> 
 fn shrink_candidates(c: &Case) -> Vec<Case> {
     let mut out = vec![];
     let n = c.ops.len();
+    if c.check == "C15" {
+        // structure-preserving shrinking: prefix ops, and body ops in all repetitions at once
+        let prefix = c.param("prefix_len", 0) as usize;
+        let body = c.param("body_len", 0) as usize;
+        let reps = crate::checks::c15::REPS;
+        if body > 0 && prefix + body * reps == n {
+            if prefix > 0 {
+                let mut d = c.clone();
+                d.ops.drain(0..prefix);
+                d.params.insert("prefix_len".into(), 0);
+                out.push(d);
+            }
+            for i in (0..prefix).rev() {
+                let mut d = c.clone();
+                d.ops.remove(i);
+                d.params.insert("prefix_len".into(), prefix as i64 - 1);
+                out.push(d);
+            }
+            if body > 1 {
+                for j in (0..body).rev() {
+                    let mut d = c.clone();
+                    for r in (0..reps).rev() {
+                        d.ops.remove(prefix + r * body + j);
+                    }
+                    d.params.insert("body_len".into(), body as i64 - 1);
+                    out.push(d);
+                }
+            }
+            if c.bufsize.is_some() {
+                let mut d = c.clone();
+                d.bufsize = None;
+                out.push(d);
+            }
+            if c.version == 4 {
+                let mut d = c.clone();
+                d.version = 3;
+                out.push(d);
+            }
+            return out;
+        }
+    }
     // remove chunks (halves, quarters ...), then singles
     let mut chunk = n / 2;
     while chunk >= 2 {
@@ -881,7 +922,10 @@ pub fn run_main(args: &[String]) -> i32 {
     let wall = t0.elapsed().as_secs_f64();
     let st = &res.agg.stats;
     let per_hour = if batch_wall > 0.0 { (res.agg.cases as f64 / batch_wall * 3600.0) as u64 } else { 0 };
-    let zero_probes: Vec<String> = vec![];
+    let zero_probes: Vec<String> = def.expect_probes.iter().filter(|p| st.probes.get(**p).copied().unwrap_or(0) == 0).map(|p| p.to_string()).collect();
+    for p in &zero_probes {
+        println!("warning: reach probe '{}' was never hit in this run", p);
+    }
     let evidence = json!({
         "property_id": def.id,
         "tier": tier.name(),
